@@ -495,6 +495,18 @@ class Generator:
             sig = rw(sig)
             body = rw(body)
             fi = sig.index('fn')
+            # a receiver (`fn as_(self)` of `impl AsPrimitive<BUint<N>> for u8`): a free fn has none -> the ordinary
+            # parameter `self__: T` / `self__: &T`
+            pi = sig.index('(', fi)
+            if sig[pi + 1] == 'self':
+                sig[pi + 1:pi + 2] = ['self__', ':'] + selfty
+            elif sig[pi + 1:pi + 3] == ['&', 'self']:
+                sig[pi + 1:pi + 3] = ['self__', ':', '&'] + selfty
+            elif 'self' in sig[pi:]:
+                raise R.Unsupported('ext_trait free fn: receiver form ' + ' '.join(sig[pi:pi + 4]))
+            if 'self__' in sig:
+                body = ['self__' if x == 'self' else x for x in body]
+                log['R17s'] = 1
             if gens:
                 if sig[fi + 2] == '<':
                     sig[fi + 3:fi + 3] = gens + [',']
